@@ -102,3 +102,47 @@ Theorem C11_reader_comments_ignored_without_effect_partial :
 Proof. exact read_comments_ignored. Qed.
 Goal True. idtac "ASSUMPTIONS-OF C11_reader_comments_ignored_without_effect_partial". Abort.
 Print Assumptions C11_reader_comments_ignored_without_effect_partial.
+
+(* the layout class includes continued statements whose every physical line carries a trailing comment
+   (ReaderJoinG): hypotheses met, and the comments come exactly once, in source order, each with the
+   number of its own physical line, after the statement they were found in *)
+From Coq Require Import String Ascii.
+Close Scope string_scope.
+From FV Require Import ReaderJoinG Text.
+Example C11_example_trailing_comments_on_continuation_lines :
+  let t := fun x => list_ascii_of_string x in
+  let f := [LCom (t " "%string) (t " head"%string);
+            LContG (t "v = a + &   ! first"%string) None None (t "v = a + &   ! first"%string) (t "v = a + "%string) (t "   "%string)
+                   None (Some (t "! first"%string))
+                   [GMid (t " "%string) (t " b + "%string) (t "  "%string) (t " b + &  ! second"%string) (Some (t "! second"%string)) None;
+                    GCom (t "   ! own line"%string)]
+                   (t " "%string) (t " 'c!d'   "%string) (t " 'c!d'   ! third"%string) (Some (t "! third"%string));
+            LOneC (t "z = 2 ! set z"%string) None None (t "z = 2 "%string) (t " set z"%string)] in
+  Forall good f /\
+  flat_map phys f = [t " ! head"%string; t "v = a + &   ! first"%string; t " & b + &  ! second"%string; t "   ! own line"%string;
+                     t " & 'c!d'   ! third"%string; t "z = 2 ! set z"%string] /\
+  comments_of f 0 = [Reader.RComment (t "! head"%string) 1 1 false; Reader.RComment (t "! first"%string) 2 2 true; Reader.RComment (t "! second"%string) 3 3 true;
+                     Reader.RComment (t "! own line"%string) 4 4 false; Reader.RComment (t "! third"%string) 5 5 true;
+                     Reader.RComment (t "! set z"%string) 6 6 true] /\
+  Reader.read_source (flat_map phys f) true false false
+  = [Reader.RComment (t "! head"%string) 1 1 false; Reader.RLine (t "v = a +  b +  'c!d'"%string) None None 2 5;
+     Reader.RComment (t "! first"%string) 2 2 true; Reader.RComment (t "! second"%string) 3 3 true;
+     Reader.RComment (t "! own line"%string) 4 4 false; Reader.RComment (t "! third"%string) 5 5 true;
+     Reader.RLine (t "z = 2"%string) None None 6 6; Reader.RComment (t "! set z"%string) 6 6 true] /\
+  Reader.read_source (flat_map phys f) true false true
+  = [Reader.RLine (t "v = a +  b +  'c!d'"%string) None None 2 5; Reader.RLine (t "z = 2"%string) None None 6 6].
+Proof.
+  cbv zeta. split; [|split; [|split; [|split]]].
+  2-5: vm_compute; reflexivity.
+  repeat (apply Forall_cons || apply Forall_nil); cbn [good]; cbv zeta; repeat split;
+    lazymatch goal with
+    | |- exists _, _ => eexists; split; vm_compute; reflexivity
+    | |- _ <> _ => vm_compute; discriminate
+    | |- hicr _ _ _ _ _ => intros n; vm_compute; reflexivity
+    | |- chain_g _ _ _ _ _ _ => cbn [chain_g]; repeat split; try (vm_compute; reflexivity);
+                               try (intros n; vm_compute; reflexivity); eexists; intros n; vm_compute; reflexivity
+    | |- _ => vm_compute; reflexivity
+    end.
+Qed.
+Goal True. idtac "ASSUMPTIONS-OF C11_example_trailing_comments_on_continuation_lines". Abort.
+Print Assumptions C11_example_trailing_comments_on_continuation_lines.
